@@ -195,6 +195,23 @@ func init() {
 				}
 			}
 		}
+		// a template function that FAILS on an unknown identifier, called where that is tolerated (a condition,
+		// an operand of ! || &&): the chain goes on in the CALLER's scope - the function's parameters do not
+		// stay bound and do not change what later conditions see
+		for _, t := range [][2]string{
+			{`<% let f = fn(p) { return missing } %><%= if (f(1)) { %>A<% } else if (p) { %>B<% } else { %>C<% } %>`, "C"},
+			{`<% let x = false %><% let check = fn(x) { return missing.Field } %><%= if (check("yes")) { %>A<% } else if (x) { %>B<% } else { %>C<% } %>|<%= x %>`, "C|false"},
+			{`<% let f = fn(p) { return missing } %><%= !f(1) %>|<%= if (p) { %>T<% } else { %>F<% } %>|<%= f(2) || p %>|<%= if (p) { %>T<% } else { %>F<% } %>`, "true|F|false|F"},
+			{`<% let f = fn(q) { return nothere } %><%= for (i) in [1, 2] { %><%= if (f(i)) { %>A<% } else if (q) { %>B<% } else { %>C<% } %><% } %>|<%= if (q) { %>T<% } else { %>F<% } %>`, "CC|F"},
+			{`<% let v = "outer" %><% let g = fn(v) { return nope } %><%= if (g("inner") == nil) { %><%= v %><% } %>|<%= v %>`, "outer|outer"},
+		} {
+			c := RCase{Tmpl: t[0]}
+			o := e.addRenderCase("failing-function-in-condition", c)
+			e.Distinct(t[0])
+			if o.Class != "OK" || o.Out != t[1] {
+				e.Violate("c07-chain", fmt.Sprintf("%s: rendered %q (%s %s), want %q", t[0], o.Out, o.Class, firstLine(o.Msg), t[1]), map[string]interface{}{"case": c, "observed": o})
+			}
+		}
 		// chains whose HEAD condition is a negation (if (!c1()) ... else if (c2()) ... else ...), with and
 		// without else-ifs and else: the first truthy branch, conditions evaluated up to it and no further
 		for n := 1; n <= 3; n++ {
